@@ -1,8 +1,22 @@
-"""C14 - bounded read-only runtime contracts (see contracts/b_read.py)."""
+"""C14 - traversal visits every node once, in source order, consistently across APIs."""
+from contracts import k_traverse
+from pyvc.contract import verify_all
 from pyvc import native
 
 
 def run(rep, tier, seed):
+    # spec check first: ORDER must be CPython position order (a disagreement is a checker error, not a violation)
+    v = native.run('k_traverse', 'validate_order', {})
+    if v['n_bad'] or v['nodes'] < 1000:
+        rep.checker_error(f'ORDER table disagrees with CPython positions (or too few nodes {v["nodes"]}): {v["bad"][:3]}')
+    rep.extra['order_validation'] = {'nodes': v['nodes'], 'classes_seen': len(v['classes_seen'])}
+    specs, notes = k_traverse.specs('C14')
+    verify_all(rep, specs)
+    rep.extra['not_proved'] = notes
+    rep.trusted.append('ORDER table (syntactic field order per AST class) written from the grammar; validated against '
+                       'CPython (lineno, col_offset) order on every node of the corpus on every run')
     sec = native.run('b_read', 'main', {'props': ['C14'], 'tier': tier, 'seed': seed}, timeout=7200)
     sec['native_entry'] = ('b_read', 'replay')
     rep.bounded(sec)
+    rep.remainder = ('the walk generator itself and the position-merging step functions of Call / ClassDef / Dict / '
+                     'MatchMapping / Compare / arguments: bounded stand-in only')
